@@ -21,7 +21,8 @@ type pairBuild struct {
 	Expect    *string           // expected stdout when there is no reference program
 	SelfCheck bool              // the program checks itself: stdout must end with DONE and hold no MISMATCH line
 	Opts      compileOpts
-	Info      map[string]string // carried to the comparison (feature tags for site naming)
+	Info      map[string]string           // carried to the comparison (feature tags for site naming)
+	CheckOut  func(out []byte, r *fw.Rec) // optional static judgement of the written Go source
 }
 
 // goTypeCheck type-checks Go files (name -> source) as one package with go/types; imports are resolved from
@@ -89,6 +90,12 @@ func pairWorker(env *fw.Env, id string, c fw.Case, r *fw.Rec, pb pairBuild) bool
 		return false
 	}
 	r.Cover("xgo-compiled")
+	if pb.CheckOut != nil {
+		pb.CheckOut(res.Out, r)
+		if r.Failed() {
+			return false
+		}
+	}
 	base := fmt.Sprintf("%s_%06d", strings.ToLower(id), c.Idx)
 	m := progMeta{Idx: c.Idx, Case: c, Info: pb.Info}
 	xfiles := map[string]string{"xgo_autogen.go": string(res.Out)}
@@ -208,13 +215,21 @@ func pairPostRun(env *fw.Env, d *fw.Driver, id string, classify func(m progMeta,
 			}
 		case m.Expect == "selfcheck":
 			agg.Cover["programs-executed"]++
-			agg.Cover["self-checks-passed"] += strings.Count(got.Stdout, "\nOK ")
+			if i := strings.LastIndex(got.Stdout, "\nOK "); i >= 0 {
+				var n int
+				fmt.Sscan(got.Stdout[i+4:], &n)
+				agg.Cover["self-checks-passed"] += n
+			}
 			if i := strings.Index(got.Stdout, "MISMATCH"); i >= 0 {
 				ln := got.Stdout[i:]
 				if j := strings.IndexByte(ln, '\n'); j >= 0 {
 					ln = ln[:j]
 				}
-				fail(m, "run:self-check-mismatch", "%s", clipS(ln, 600))
+				site := "run:self-check-mismatch"
+				if f := strings.Fields(ln); len(f) > 1 {
+					site += ":" + strings.TrimSuffix(f[1], ":")
+				}
+				fail(m, site, "%s", clipS(ln, 600))
 			} else if !strings.HasSuffix(strings.TrimSpace(got.Stdout), "DONE") || got.Code != 0 {
 				fail(m, "run:did-not-finish", "exit status %d; stdout tail: %s\nstderr: %s", got.Code, clipS(tailS(got.Stdout, 300), 300), clipS(got.Stderr, 600))
 			} else {
